@@ -6,6 +6,7 @@ from ..core import hx
 from .common_diff import run_cases, generic_replay
 
 PROOF_MODULE = "Nlmodel.Proofs.C10"
+MORE_PROOF_MODULES = ["Nlmodel.Proofs.C10Transfer"]
 PROOF_FILES = ["Nlmodel/Proofs/C10.lean", "Nlmodel/Model/Compiler.lean", "Nlmodel/Model/VM.lean", "Nlmodel/Model/Value.lean"]
 THEOREM_FILE = PROOF_FILES[0]
 LEVEL_TEXT = ("Lean theorems: each fused <Op>LocalConst instruction has exactly the effect of GetLocal; Const; <Op> with the operands in the same order; the compiler model fuses only `local op literal` or `literal op local` with a mirrored operator; mirroring is sound for an integer literal and ANY other operand (c op x = x op' c on all value types, including the error cases); adding a constant never disturbs existing constant-pool entries and returns the index of an equal constant. Tied to compiler.rs/vm.rs by (a) comparing the real eval with the definitional semantics on every program and each of its four variants (top-level code moved into a function, a literal replaced by a variable, mirrored comparisons, prepended literal statements), (b) metamorphic comparison of the variants on the implementation alone, and (c) byte-for-byte comparison of the real bytecode and constant pool with the compiler model as a diagnostic tier. Transfer to the machine: C01_same_meaning_same_behaviour (Proofs/C01): two texts that pass the stage-5 validation and have the same definitional answer get the same answer from eval for every large enough budget, however differently they were compiled.")
